@@ -305,26 +305,19 @@ fn scenario(ctxrc: SharedCtx, report: Rc<RefCell<Report>>) {
     };
     rdp::model::rnd::verif::install(None);
     let mut client = client;
-    // activation: the frames the server sends, one read each (unless the receive thread is to do it)
-    for _ in 0..(if plan.early_launch { 0 } else { 40 }) {
-        let need = { let s = world.server.borrow(); s.frames_sent > 6 + s.activations as usize * 0 && s.phase != Phase::Active };
-        let pending = world.wire.borrow().s2c.len();
-        if world.server.borrow().phase == Phase::Active {
-            break;
+    // activation on this thread (unless the receive thread is to do it): read while something the server has sent is
+    // unread - on the raw transport or decrypted inside the client's TLS layer - and the server is not active yet
+    if !plan.early_launch {
+        for _ in 0..60 {
+            world.pump();
+            let unread = !world.wire.borrow().s2c.is_empty() || client.has_buffered_data();
+            if !unread {
+                break;
+            }
+            if let Err(e) = client.read(|_| {}) {
+                return fail(viol("c20/session-not-established", "activation", format!("activation read failed: {}", harness::err_kind(&e))));
+            }
         }
-        let _ = (need, pending);
-        if let Err(e) = client.read(|_| {}) {
-            return fail(viol("c20/session-not-established", "activation", format!("activation read failed: {}", harness::err_kind(&e))));
-        }
-        world.pump();
-    }
-    // drain the server's four finalisation PDUs
-    let mut reads = 0;
-    while !plan.early_launch && world.server.borrow().frames_sent > 6 + 1 + reads && reads < 8 {
-        if client.read(|_| {}).is_err() {
-            break;
-        }
-        reads += 1;
     }
     if !plan.early_launch && world.server.borrow().phase != Phase::Active {
         return fail(viol("c20/session-not-established", "activation", "server never reached Active".to_string()));
